@@ -44,13 +44,24 @@ var (
 
 func loadKnown() {
 	knownOnce.Do(func() {
-		b, err := os.ReadFile(filepath.Join(VerifDir(), "known_findings.json"))
-		if err != nil {
-			return
-		}
-		if err := json.Unmarshal(b, &known); err != nil {
-			fmt.Fprintf(os.Stderr, "known_findings.json: %v\n", err)
-			os.Exit(2)
+		// known_findings.json plus known_findings.d/*.json (one file per world);
+		// committed files, never written at run time.
+		files := []string{filepath.Join(VerifDir(), "known_findings.json")}
+		more, _ := filepath.Glob(filepath.Join(VerifDir(), "known_findings.d", "*.json"))
+		sort.Strings(more)
+		files = append(files, more...)
+		for _, fn := range files {
+			b, err := os.ReadFile(fn)
+			if err != nil {
+				continue
+			}
+			var kf KnownFile
+			if err := json.Unmarshal(b, &kf); err != nil {
+				fmt.Fprintf(os.Stderr, "%s: %v\n", fn, err)
+				os.Exit(2)
+			}
+			known.Findings = append(known.Findings, kf.Findings...)
+			known.Fixed = append(known.Fixed, kf.Fixed...)
 		}
 	})
 }
@@ -441,21 +452,21 @@ func cmdShrink(t *testing.T, args []string) int {
 // ---- check ---------------------------------------------------------------------------------------
 
 type agg struct {
-	mu          sync.Mutex
-	evals       int
-	fps         map[string]struct{}
-	faults      map[string]int
-	probes      map[string]int
-	steps       int
-	simS        float64
-	states      map[string]struct{}
-	samples     []any
-	logs        map[uint64]string
-	violations  map[string]*found // by sig
-	knownSeen   map[string]int
-	panics      []string
-	inconcl     int
-	hung        int
+	mu         sync.Mutex
+	evals      int
+	fps        map[string]struct{}
+	faults     map[string]int
+	probes     map[string]int
+	steps      int
+	simS       float64
+	states     map[string]struct{}
+	samples    []any
+	logs       map[uint64]string
+	violations map[string]*found // by sig
+	knownSeen  map[string]int
+	panics     []string
+	inconcl    int
+	hung       int
 }
 
 type found struct {
@@ -530,7 +541,10 @@ func cmdCheck(args []string) int {
 		logs: map[uint64]string{}, violations: map[string]*found{}, knownSeen: map[string]int{}}
 
 	// chunks of seeds
-	type chunk struct{ start uint64; count int }
+	type chunk struct {
+		start uint64
+		count int
+	}
 	var chunks []chunk
 	for s := 0; s < runs; s += perProc {
 		n := perProc
@@ -859,23 +873,23 @@ func writeEvidence(c *Check, tier string, seed uint64, a *agg, wall float64, new
 		"seed":        int64(seed),
 		"level":       level,
 		"coverage": map[string]any{
-			"evaluations":          a.evals,
-			"distinct_nontrivial":  len(a.fps),
-			"rule":                 rule,
-			"samples":              samples,
-			"runs_per_hour":        int64(rph),
-			"sim_time_covered_s":   a.simS,
-			"events_executed":      a.steps,
-			"faults_fired":         a.faults,
-			"probes":               a.probes,
+			"evaluations":            a.evals,
+			"distinct_nontrivial":    len(a.fps),
+			"rule":                   rule,
+			"samples":                samples,
+			"runs_per_hour":          int64(rph),
+			"sim_time_covered_s":     a.simS,
+			"events_executed":        a.steps,
+			"faults_fired":           a.faults,
+			"probes":                 a.probes,
 			"distinct_state_digests": len(a.states),
-			"components":           c.Components,
-			"schedule_regime":      c.Regime,
-			"known_findings_seen":  known,
-			"inconclusive":         a.inconcl,
-			"harness_panics":       len(a.panics),
-			"workers_hung":         a.hung,
-			"exhaustive":           false,
+			"components":             c.Components,
+			"schedule_regime":        c.Regime,
+			"known_findings_seen":    known,
+			"inconclusive":           a.inconcl,
+			"harness_panics":         len(a.panics),
+			"workers_hung":           a.hung,
+			"exhaustive":             false,
 		},
 		"assumptions": c.Assumptions,
 		"wall_s":      wall,
